@@ -282,6 +282,21 @@ def _subs(tier, prop):
         S.append(mk_sub('F6-fail-with-finished-part-blocked', with_ops(serial('PH', 2), [
             {'k': 'fail', 'dev': 'p1', 't': 't0'}, {'k': 'restore', 'dev': 'p1', 't': 't1'}]), mons, zero=['cs', 'c0'],
             pre=['t0 <= t1']))
+    elif prop == 'C01':
+        # device tier of C01 (thorough only): the dispatch-order monitor rides on real multi-device models
+        if not q:
+            mons = ['dispatch']
+            S.append(mk_sub('F1-PB-n2', serial('PB', 2, caps={2: 2}), mons, zero=['cs']))
+            S.append(mk_sub('F2-fanout-n2', {'devices': [{'k': 'source', 'name': 'src', 'cycle': 'c0', 'parts': 2},
+                                                          {'k': 'proc', 'name': 'p1', 'up': ['src'], 'cycle': 'c1'},
+                                                          {'k': 'proc', 'name': 'p2', 'up': ['src'], 'cycle': 'c2'},
+                                                          {'k': 'sink', 'name': 'snk', 'up': ['p1', 'p2'], 'cycle': 0}]}, mons))
+            S.append(mk_sub('F6-shutdown-fail-restore', _faults_basic(2, [
+                {'k': 'shutdown', 'dev': 'p1', 't': 't0'}, {'k': 'armfail', 'dev': 'p1', 't': 't0', 'delay': 'd1'},
+                {'k': 'restore', 'dev': 'p1', 't': 't2'}]), mons, zero=['cs', 'c0'], pre=['t0 + d1 <= t2']))
+            S.append(mk_sub('F6-workorder', with_ops(serial('P', 2), [{'k': 'workorder', 'dev': 'p1', 't': 't0', 'tag': 'm'}],
+                                                     maint=True, durs={'m': 'w0'}), mons, zero=['cs', 'c0']))
+            S.append(mk_sub('F5-two-procs-one-pool', resources2(2), mons, zero=['cs', 'c0']))
     elif prop == 'C04':
         mons = ['recurrence']
         # station kinds x zero pattern; capacities concrete per analysis
@@ -557,6 +572,8 @@ def jobs(tier, prop):
 
 
 def bounds_text(tier, prop):
+    if not _subs(tier, prop):
+        return 'device tier (dispatch-order monitor on multi-device models): thorough only'
     extra = ''
     if tier == 'thorough' and prop in LINE_PROPS:
         extra = f' + {len(_cross_pool(prop))} models of the other device-level properties (prefixed x<id>:) run with this property\'s monitors'
@@ -572,6 +589,7 @@ REQUIRED = {
     'C05': ['buffer_released_part', 'buffer_full', 'buffer_two_waiting', 'buffer_released_exactly_at_delay', 'two_arrivals_same_instant'],
     'C06': ['part_finished_on_time', 'processing_interrupted_by_maintenance', 'processing_resumed', 'failure_ended_processing',
             'offset_floored_at_zero', 'offset_set_from_finish_callback'],
+    'C01': [],
     'C04': ['recurrence_matched', 'blocked_by_downstream'],
     'C11': ['processing_with_resources', 'resources_kept_through_maintenance', 'released_on_failure', 'idle_processor_released'],
     'C15': ['level_recorded', 'failure_recorded', 'produced_recorded', 'supplied_recorded', 'resource_recorded', 'work_order_recorded',
@@ -585,6 +603,8 @@ REQUIRED = {
 
 
 def required_goals(tier, prop):
+    if prop == 'C01':
+        return ['device_event_dispatched', 'device_events_tied'] if tier == 'thorough' else []
     return REQUIRED.get(prop, [])
 
 
